@@ -98,6 +98,8 @@ class Engine:
         return None
 
     def is_subclass(self, qual, other):
+        if qual.startswith("ext:"):
+            qual = qual[4:]        # a scripted collaborator standing for an instance of that class
         if qual == other:
             return True
         ci = self.class_info(qual) if ":" in qual else None
@@ -201,6 +203,14 @@ class Engine:
                 return True
         if it.ctx.contract_stack:
             return True  # inside an inlined function chain explicitly allowed
+        # small loop-free module-level helpers (e.g. frequenz.sdk._internal._math) are executed as they are:
+        # inlining is always sound (it is the real code); contracts exist to keep paths small
+        node = f.node
+        if not f.cls and isinstance(node, ast.FunctionDef) and len(node.body) <= 12 and not any(
+                isinstance(n, (ast.For, ast.While, ast.AsyncFor, ast.Await, ast.Yield, ast.YieldFrom, ast.Try, ast.With,
+                               ast.Global, ast.Nonlocal)) for n in ast.walk(node)):
+            it.ctx.trusted.add(f"inlined leaf helper {target} (no contract declared; executed as written)")
+            return True
         return False
 
     def note_write(self, it, ref, attr):
